@@ -6,8 +6,9 @@ HOOKS = {
     "add_only": False,
 }
 ENGINES = [
-    {"name": "tlc", "path": "/opt/veriftools/tla/tla2tools.jar", "serves_properties": [], "kind_free_text": "TLC model checker: exhaustive runs of spec/*_MC*.cfg and trace validation of recorded executions (spec/*Trace.tla)"},
-    {"name": "harness", "path": "/verif/harness", "serves_properties": [], "kind_free_text": "deterministic Rust harness driving real remoc objects over a harness-owned transport, recording ndjson traces; replays TLC-generated behaviours"},
+    {"name": "tlc", "path": "/opt/veriftools/tla/tla2tools.jar", "serves_properties": ["C%02d" % i for i in range(1, 21)], "kind_free_text": "TLC model checker: exhaustive runs of spec/*_MC*.cfg and trace validation of recorded executions (spec/*Trace.tla)"},
+    {"name": "harness", "path": "/verif/harness", "serves_properties": ["C%02d" % i for i in range(1, 21)], "kind_free_text": "deterministic Rust harness driving real remoc objects over a harness-owned transport, recording ndjson traces; replays TLC-generated behaviours"},
+    {"name": "apalache", "path": "/opt/veriftools/apalache", "serves_properties": ["C02"], "kind_free_text": "Apalache symbolic model checker: credit conservation as an inductive invariant for unbounded buffer sizes (spec/apalache/Credit.tla)"},
 ]
 NOTES = ("Model-based verification with explicit TLA+ specifications (spec/), bound to the implementation by trace validation and "
          "specification-to-implementation replay. hooks.add_only is false only because remoc/Cargo.toml's check-cfg list got one more entry; "
